@@ -9,7 +9,8 @@ CFG = dict(
                'engine states, Proofs/StoreEquiv.v), C14_invisible_reports (later reports unchanged), C14_config_independent, '
                'C14_recovered_is_served. Tie: histories x configurations on a real StorageEngine with contents, batch-file count and WAL line '
                'count compared with the model after every step.',
-    level_note='Trusted: Coq kernel, harness. One shard; the WAL size trigger is modelled by a lower bound on the line size (exact for limits < 64 '
+    level_note='Trusted: Coq kernel, harness. The theorems are per shard; two-relation cases are checked as two independent single-shard models that share the '
+               'batch directory and WAL file (exact while the WAL-size trigger is off); the WAL size trigger is modelled by a lower bound on the line size (exact for limits < 64 '
                'bytes or never reached) and does not fire in batched mode for WALs below the 8 KB write buffer; Parquet/JSON byte formats are not '
                'modelled (C12). Clean = graceful shutdown (save_all) before reopen in async mode. A restart is not a maintenance step: the live '
                'engine remembers the arity of an emptied relation, a restarted one does not (noted in Proofs/StoreEquiv.v).',
@@ -18,8 +19,10 @@ CFG = dict(
     rule='corpus: one fixed history (flushes, compaction over deletes and duplicates, save, graceful restart, drop+reopen) under all 24 '
          'configurations buffer_size {1,2,3,10000} x max_wal {0,1} x {immediate,batched,async}; random: histories of 2-25 steps (insert batches '
          'with duplicates 35%, deletes 25%, save 10%, compact 15%, graceful restart 10%, drop+reopen 5% (not in async)) over 2-4 tuples of 4 '
-         'kinds x random configuration incl. max_wal 64MB. non-trivial = a maintenance step follows at least one write; distinct by '
+         'kinds x random configuration incl. max_wal 64MB; TWO relations of one KG with prefix-related shard names (r, r_weight): corpus where one '
+         'relation is flushed alone by a full buffer (buffer_size {1,2,3,10000}, immediate/batched) while the other has WAL-only updates, then '
+         'drop + reopen WITHOUT save, then deletes / compaction / more reopens; n/2 random two-relation histories (WAL-size trigger off). non-trivial = a maintenance step follows at least one write; distinct by '
          '(configuration, tuple kind, op list)',
     trusted_base=['batch files are counted in data_dir/persist/batches/*.parquet, WAL lines in persist/wal/current.wal (immediate mode only)'],
-    assumptions=['single writer, one relation/shard', 'clean shutdown only (crashes are C13)'],
+    assumptions=['single writer; shards interact only through flush_all (WAL-size trigger), which two-relation cases keep off', 'clean shutdown only (crashes are C13)'],
 )
